@@ -44,6 +44,12 @@ CLAIMED = {
         text='Table properties (every field / enumerator covered, keys unique, aliases resolve, nested tables exist) are decide theorems over tables regenerated from the current source; dispatch / frame / rejection / used-counter / no-half-write theorems hold for all option strings of a hand model tied exactly to the real set_params on the full field x variant sweep; duration rounding in exact arithmetic. from_chars is an oracle.',
         note='Lean kernel + Mathlib; gen/gen_c18.py (6 regions); from_chars(double) oracle; binary64 duration products monitored (2 ulp); coarse-resolution rounding branch and int64 overflow not proved.',
         design='§6 C18, §7-C,D,E'),
+    'C03': dict(
+        technique='Lean 4 proof (loop invariant through every line-search branch / stop schedule / direction provider) about a PANOC loop model tied by bit-exact trace replay + exact-rational monitors on real solver runs with stop / NaN injection',
+        category='proof',
+        text='Props/C03.lean: for the PANOC loop model (all problem oracles, direction providers, stop schedules, budgets incl. 0, both overwrite settings, any carrier incl. IEEE doubles): whenever outputs are overwritten x_out is the x-hat of a prox step (so in C), y_out is the psi-oracle y-hat at that very x_out, err_z = (y_out - y_in)/Sigma; otherwise x, y, err_z are untouched. The model is replayed bit-for-bit against the real PANOCSolver (callbacks, outputs, statistics, oracle-call count). Partial: ZeroFPR / PANTR / FISTA / PANOC-OCP are covered by the monitors only until their loop models land.',
+        note='Lean kernel + Mathlib; hand-written loop model tied on explored runs only; decision kernels regenerated by gen_c05/gen_c06; psi / y-hat oracles assumed to equal their closed forms (C04); two genuine defects found by this check were repaired (known-findings.json: fixed).',
+        design='§6 C03, §7-J1,J2'),
 }
 
 NOT_YET = {
